@@ -1,0 +1,156 @@
+//! Read-only observation hooks for external verification tooling.
+//!
+//! This module is only compiled with `--cfg olson_sean_k_wax_verif`. It adds no behavior: it only
+//! renders internal state (token trees, compiled patterns) in a canonical textual form.
+
+use std::fmt::Write as _;
+
+use crate::token::{self, Archetype, BranchKind, LeafKind, Token, TokenTopology, TokenTree, Wildcard};
+use crate::{Any, CharExt as _, Glob};
+
+pub trait SpanText {
+    fn span_text(&self) -> String;
+}
+
+impl SpanText for () {
+    fn span_text(&self) -> String {
+        "0 0".into()
+    }
+}
+
+impl SpanText for (usize, usize) {
+    fn span_text(&self) -> String {
+        format!("{} {}", self.0, self.1)
+    }
+}
+
+fn hex(text: &str) -> String {
+    let mut output = String::from("x");
+    for byte in text.as_bytes() {
+        write!(output, "{:02x}", byte).unwrap();
+    }
+    output
+}
+
+pub fn tree<A>(token: &Token<'_, A>) -> String
+where
+    A: SpanText,
+{
+    let mut output = String::new();
+    write_tree(token, &mut output);
+    output
+}
+
+// This is recursive, but so is the encoder.
+fn write_tree<A>(token: &Token<'_, A>, output: &mut String)
+where
+    A: SpanText,
+{
+    let span = token.annotation().span_text();
+    match token.topology() {
+        TokenTopology::Leaf(leaf) => match leaf {
+            LeafKind::Literal(literal) => {
+                write!(
+                    output,
+                    "(L {} {} {})",
+                    u8::from(literal.is_case_insensitive()),
+                    hex(literal.text()),
+                    span,
+                )
+                .unwrap();
+            },
+            LeafKind::Separator(_) => write!(output, "(S {})", span).unwrap(),
+            LeafKind::Class(class) => {
+                write!(output, "(C {} (", u8::from(class.is_negated())).unwrap();
+                for (n, archetype) in class.archetypes().iter().enumerate() {
+                    if n > 0 {
+                        output.push(' ');
+                    }
+                    match archetype {
+                        Archetype::Character(x) => write!(output, "c{:x}", u32::from(*x)).unwrap(),
+                        Archetype::Range(a, b) => {
+                            write!(output, "r{:x}-{:x}", u32::from(*a), u32::from(*b)).unwrap()
+                        },
+                    }
+                }
+                write!(output, ") {})", span).unwrap();
+            },
+            LeafKind::Wildcard(Wildcard::One) => write!(output, "(O {})", span).unwrap(),
+            LeafKind::Wildcard(Wildcard::ZeroOrMore(evaluation)) => write!(
+                output,
+                "(Z {} {})",
+                u8::from(matches!(evaluation, token::Evaluation::Lazy)),
+                span,
+            )
+            .unwrap(),
+            LeafKind::Wildcard(Wildcard::Tree { has_root }) => {
+                write!(output, "(T {} {})", u8::from(*has_root), span).unwrap()
+            },
+        },
+        TokenTopology::Branch(branch) => match branch {
+            BranchKind::Alternation(alternation) => {
+                output.push_str("(A (");
+                for (n, token) in alternation.tokens().iter().enumerate() {
+                    if n > 0 {
+                        output.push(' ');
+                    }
+                    write_tree(token, output);
+                }
+                write!(output, ") {})", span).unwrap();
+            },
+            BranchKind::Concatenation(concatenation) => {
+                output.push_str("(K (");
+                for (n, token) in concatenation.tokens().iter().enumerate() {
+                    if n > 0 {
+                        output.push(' ');
+                    }
+                    write_tree(token, output);
+                }
+                write!(output, ") {})", span).unwrap();
+            },
+            BranchKind::Repetition(repetition) => {
+                let (lower, upper) = repetition.bound_specification();
+                write!(
+                    output,
+                    "(R {} {} ",
+                    lower,
+                    upper.map_or_else(|| String::from("-"), |upper| upper.to_string()),
+                )
+                .unwrap();
+                write_tree(repetition.token(), output);
+                write!(output, " {})", span).unwrap();
+            },
+        },
+    }
+}
+
+/// Parses an expression **without** checking rules and renders its token tree.
+pub fn parse_tree(expression: &str) -> Option<String> {
+    token::parse(expression)
+        .ok()
+        .map(|tokenized| self::tree(tokenized.as_token()))
+}
+
+pub fn has_casing(x: char) -> bool {
+    x.has_casing()
+}
+
+impl<'t> Glob<'t> {
+    pub fn verif_tree(&self) -> String {
+        self::tree(self.tree.as_ref().as_token())
+    }
+
+    pub fn verif_pattern(&self) -> &str {
+        self.program.as_str()
+    }
+}
+
+impl<'t> Any<'t> {
+    pub fn verif_tree(&self) -> String {
+        self::tree(self.tree.as_ref().as_token())
+    }
+
+    pub fn verif_pattern(&self) -> &str {
+        self.program.as_str()
+    }
+}
